@@ -23,6 +23,61 @@ func init() {
 }
 
 func runC36(c *eng.Ctx) {
+
+	// FIELDS-origin: everything a filer sink applies to the target filer is marked as coming from another cluster and
+	// carries the signatures of the event (the filers it already passed through): the opposite direction of an
+	// active-active sync recognises its own changes by them. Create, update and delete must all forward both.
+	nReq := 0
+	for _, fn := range c.P.SrcFuncs("weed/replication/sink/filersink") {
+		for _, f := range []*ssa.Function{fn} {
+			for i, in := range eng.Find(f, func(in ssa.Instruction) bool {
+				a, ok := in.(*ssa.Alloc)
+				if !ok {
+					return false
+				}
+				n := eng.TypeName(a.Type())
+				return n == "CreateEntryRequest" || n == "UpdateEntryRequest" || n == "DeleteEntryRequest"
+			}) {
+				al := in.(*ssa.Alloc)
+				nReq++
+				c.Touch(f)
+				sig, other := false, false
+				for _, r := range *al.Referrers() {
+					fa, ok := r.(*ssa.FieldAddr)
+					if !ok {
+						continue
+					}
+					for _, rr := range *fa.Referrers() {
+						st, isSt := rr.(*ssa.Store)
+						if !isSt {
+							continue
+						}
+						switch structFieldName(al.Type(), fa.Field) {
+						case "Signatures":
+							sig = eng.IsParamLike(eng.Unwrap(st.Val), "signatures")
+						case "IsFromOtherCluster":
+							k, isK := eng.ConstBool(st.Val)
+							other = isK && k
+						}
+					}
+				}
+				c.Ob("FIELDS-origin", fmt.Sprintf("%s %s#%d", eng.FuncName(f), eng.TypeName(al.Type()), i), sig && other, al.Pos(),
+					"the request sent to the target filer carries the event's signatures and the from-other-cluster mark")
+			}
+		}
+		for i, in := range eng.Find(fn, eng.PlainCallTo("filer_pb.Remove")) {
+			call := in.(*ssa.Call)
+			nReq++
+			c.Touch(fn)
+			n := len(call.Call.Args)
+			k, isK := eng.ConstBool(call.Call.Args[n-2])
+			c.Ob("FIELDS-origin", fmt.Sprintf("%s filer_pb.Remove#%d", eng.FuncName(fn), i), isK && k && eng.IsParamLike(eng.Unwrap(call.Call.Args[n-1]), "signatures"), call.Pos(),
+				"the delete sent to the target filer carries the event's signatures and the from-other-cluster mark")
+		}
+	}
+	if nReq < 3 {
+		c.Undecided("FIELDS-origin", "discovery", token.NoPos, fmt.Sprintf("only %d requests to the target filer found (expected 3)", nReq))
+	}
 	P := c.P
 	// ---------------------------------------------------------------- (1) PREFIXDIR
 	type dsite struct {
@@ -338,9 +393,18 @@ func runC36(c *eng.Ctx) {
 				}
 			}
 			c.Ob("CASES", eng.FuncName(fn)+" fallback-only-when-not-found", okFb, upd[0].Pos(), "delete + create replace the update only when the sink did not find the old entry")
+			// ... and always then: a sink reports "the target does not have this entry" as (false, lookup error), so the
+			// fallback must not depend on the error of the update
+			var first []ssa.Instruction
+			for _, fb := range fallback {
+				first = append(first, fb)
+			}
+			hit, path := eng.Search(eng.After(upd[0]), eng.IsReturn, eng.SearchOpt{Barrier: eng.AnyOf(first), Cut: found})
+			c.Ob("CASES", eng.FuncName(fn)+" fallback-whenever-not-found", len(found) > 0 && len(first) > 0 && hit == nil, upd[0].Pos(),
+				"whenever the sink did not find the old entry (whatever error it reports with that) the entry is re-created by delete + create"+pathNote(P, fn, hit, path))
 		}
 	}
-	c.Expect("CASES", 13)
+	c.Expect("CASES", 14)
 
 	// ---------------------------------------------------------------- (4) PARAM-sink
 	for _, s := range []struct{ rel, typ string }{{"weed/replication/sink/filersink", "FilerSink"}, {"weed/replication/sink/localsink", "LocalSink"}} {
